@@ -3,7 +3,13 @@ package main
 import (
 	"fmt"
 	"math/rand"
+	"os"
+	"path/filepath"
+	"regexp"
+	"sort"
 	"strings"
+
+	"github.com/rhysd/actionlint"
 )
 
 func init() { props["C07"] = runC07 }
@@ -27,6 +33,9 @@ var c07Defects = []exprDefect{
 	{" nosuchfunc(1) ", 1, "undefined function \"nosuchfunc\"", "semantic-call"},
 	{" contains('a', github.nope) ", 15, "property \"nope\" is not defined", "semantic-arg"},
 	{"   secrets.x.y.z ", 3, "must be type of object but got \"string\"", "semantic-ws"},
+	// diagnostics about the placeholder as a whole are reported at its `$`
+	{" github.event ", -3, "should not be evaluated in template", "template-type"},
+	{"  null ", -3, "should not be evaluated in template", "template-type-null"},
 }
 
 type c07Ctx struct {
@@ -44,11 +53,11 @@ func runC07(c *ctx, r *Report) error {
 	if !c.quick {
 		n = 60000
 	}
-	r.Rule = fmt.Sprintf("%d random placements of a diagnosed construct: 9 kinds of defect inside ${{ }} (lexer, parser, semantic at the first / an inner / an argument token, with leading spaces) + untrusted input + unexpected key + bad scalar value + bad glob character, placed in workflow / job / step / container env values (free key names of random length), step name / run / with values, flow and block style, plain / single / double quoted scalars, 0–30 characters of text and 0–3 well-formed placeholders before it in the same scalar, 0–9 comment lines and 0–3 extra jobs above; the generator computes the exact line:column of the offending token / key / value / character from what it wrote, the real linter must report exactly there; non-trivial = distinct generated sources", n)
+	r.Rule = fmt.Sprintf("%d random placements of a diagnosed construct: 9 kinds of defect inside ${{ }} (lexer, parser, semantic at the first / an inner / an argument token, with leading spaces) + object / null value evaluated in a template (reported at the `$`) + untrusted input + unexpected key + bad scalar value + bad glob character, placed in workflow / job / step / container env values (free key names of random length), step name / run / with values, flow and block style, plain / single / double quoted scalars, 0–30 characters of text and 0–3 well-formed placeholders before it in the same scalar, 0–9 comment lines and 0–3 extra jobs above; the generator computes the exact line:column of the offending token / key / value / character from what it wrote, the real linter must report exactly there; non-trivial = distinct generated sources", n)
 	quoteStyles := []string{"", "'", "\""}
 	var mb batch
 	for i := 0; i < n; i++ {
-		kind := rng.Intn(13)
+		kind := rng.Intn(15)
 		var lines []string
 		k := rng.Intn(10)
 		lines = append(lines, "on: push")
@@ -63,13 +72,15 @@ func runC07(c *ctx, r *Report) error {
 		var wantLine, wantCol int
 		var wantMsg, what string
 		filler := strings.Repeat("K", rng.Intn(12))
-		if kind < 10 {
+		if kind < 10 || kind >= 13 {
 			// expression defect (0-8) or untrusted input (9) inside a scalar
 			var d exprDefect
 			script := false
 			if kind == 9 {
 				d = exprDefect{" github.event.issue.title ", 1, "is potentially untrusted", "untrusted"}
 				script = true
+			} else if kind >= 13 {
+				d = c07Defects[kind-4]
 			} else {
 				d = c07Defects[kind]
 			}
@@ -255,6 +266,9 @@ func runC07(c *ctx, r *Report) error {
 	if _, err := mb.flush(c, r); err != nil {
 		return err
 	}
+	if err := c07Corpus(c, r); err != nil {
+		return err
+	}
 	// first sentence of the property: every non-YAML diagnostic lies inside the file. Escape sequences in a
 	// double-quoted scalar produce line breaks in the value that do not exist in the source.
 	{
@@ -271,6 +285,118 @@ func runC07(c *ctx, r *Report) error {
 			}
 		}
 		r.nontrivial(src)
+	}
+	return nil
+}
+
+var reLineRef = regexp.MustCompile(`line:(\d+)`)
+
+// c07Corpus: every workflow of the project's own test data (≈ 300 files that together trigger nearly every
+// diagnostic the linter has). Generic consequences of the property that need no knowledge of the diagnostic:
+// (a) line within the file, column ≥ 1; (b) an [expression] diagnostic on a
+// line that contains `${{` lies inside a placeholder of that line (from its `$` to its closing `}}`, or to the
+// end of the line when it is closed further down); (c) k comment lines inserted above move every diagnostic by
+// exactly k lines and leave column, kind and message unchanged.
+func c07Corpus(c *ctx, r *Report) error {
+	var files []string
+	for _, d := range []string{"err", "ok", "examples"} {
+		m, _ := filepath.Glob(filepath.Join("/repo/testdata", d, "*.yaml"))
+		files = append(files, m...)
+		m, _ = filepath.Glob(filepath.Join("/repo/testdata", d, "*.yml"))
+		files = append(files, m...)
+	}
+	sort.Strings(files)
+	r.Rule += fmt.Sprintf("; corpus: the %d workflows under /repo/testdata/{err,ok,examples}: every diagnostic inside the file, [expression] diagnostics inside a placeholder of their line, and k ∈ {1, 7} comment lines inserted above shift every diagnostic by exactly k lines", len(files))
+	for _, f := range files {
+		b, err := os.ReadFile(f)
+		if err != nil {
+			continue
+		}
+		src := string(b)
+		errs, err := lintSrc(filepath.Base(f), src)
+		r.Evaluations++
+		if err != nil {
+			continue
+		}
+		lines := strings.Split(src, "\n")
+		nLines := len(lines)
+		if strings.HasSuffix(src, "\n") {
+			nLines--
+		}
+		mk := func(e *actionlint.Error) Case {
+			return Case{Op: "lint-corpus", Input: map[string]string{"file": strings.TrimPrefix(f, "/repo/"), "diagnostic": e.Error()}}
+		}
+		yamlLevel := false
+		for _, e := range errs {
+			if e.Kind == "syntax-check" && strings.HasPrefix(e.Message, "could not parse as YAML") {
+				yamlLevel = true
+			}
+		}
+		if yamlLevel || strings.TrimSpace(src) == "" {
+			continue // (an empty file has nothing the inserted lines could be "above")
+		}
+		for _, e := range errs {
+			r.hist("corpus:" + e.Kind)
+			r.nontrivial(f + e.Error())
+			if e.Line < 1 || e.Line > nLines || e.Column < 1 {
+				r.finding("position-out-of-file", fmt.Sprintf("diagnostic at %d:%d in a file of %d lines", e.Line, e.Column, nLines), mk(e))
+				continue
+			}
+			ln := lines[e.Line-1]
+			if e.Column > len(ln)+1 {
+				// a scalar that spans several lines (plain multi-line / folded): the column counts along the joined
+				// value; the property promises exactness for one-line scalars only
+				r.hist("corpus:column-in-multi-line-scalar")
+				continue
+			}
+			if e.Kind == "expression" && strings.Contains(ln, "${{") {
+				inside := false
+				for idx := 0; ; {
+					j := strings.Index(ln[idx:], "${{")
+					if j < 0 {
+						break
+					}
+					start := idx + j + 1 // column of `$`
+					end := len(ln) + 1
+					if k := strings.Index(ln[idx+j:], "}}"); k >= 0 {
+						end = idx + j + k + 2
+					}
+					if e.Column >= start && e.Column <= end {
+						inside = true
+					}
+					idx += j + 3
+				}
+				if !inside {
+					r.finding("expression-diagnostic-outside-placeholder", "an [expression] diagnostic on a line with ${{ }} placeholders points outside every placeholder of the line", mk(e))
+				}
+			}
+		}
+		for _, k := range []int{1, 7} {
+			shifted := strings.Repeat("# inserted\n", k) + src
+			errs2, err := lintSrc(filepath.Base(f), shifted)
+			r.Evaluations++
+			if err != nil {
+				continue
+			}
+			canon := func(es []*actionlint.Error, d int) []string {
+				var out []string
+				for _, e := range es {
+					msg := reLineRef.ReplaceAllStringFunc(e.Message, func(m string) string {
+						var n int
+						fmt.Sscanf(m, "line:%d", &n)
+						return fmt.Sprintf("line:%d", n+d)
+					})
+					out = append(out, fmt.Sprintf("%d:%d [%s] %s", e.Line+d, e.Column, e.Kind, msg))
+				}
+				sort.Strings(out)
+				return out
+			}
+			a, b2 := strings.Join(canon(errs, k), "\n"), strings.Join(canon(errs2, 0), "\n")
+			if a != b2 {
+				r.finding("inserted-lines-do-not-shift-exactly", fmt.Sprintf("%d comment lines inserted above the workflow change the diagnostics other than by a shift of %d lines", k, k),
+					Case{Op: "lint-corpus-shift", Input: map[string]string{"file": strings.TrimPrefix(f, "/repo/"), "k": fmt.Sprint(k)}, Impl: b2, Model: a})
+			}
+		}
 	}
 	return nil
 }
